@@ -205,6 +205,9 @@ def step (w : World) (line : String) : World × List String :=
       -- the fresh node consumed two ticks before loading
       ({ w with node := n, notices := [] }, "# restarted" :: dumpFs n.fs ++ dumpNode n)
     | none => ({ w with node := { freshNodeAt w.node.role w.node.clock with fs := w.node.fs }, notices := [] }, ["R PANIC restart"])
+  | "DELMETA" =>
+    let n := { w.node with fs := AL.erase w.node.fs (metaFile a1) }
+    ({ w with node := n }, dumpFs n.fs ++ dumpNode n)
   | "REG" =>
     match Bytes.parseNat a1 with
     | some op =>
